@@ -67,6 +67,16 @@ def cases(tier):
                         yield Case("hist:%s:n=%d:atm=%d:seed=%d:sd=%d" % (variant, n, ai, seed, sd),
                                    {"kind": "hist", "variant": variant, "n": n, "atm": list(atm), "seed": seed,
                                     "sd": sd, "depth": b["depth"]}, n >= 3)
+    # corners of the parameter space: very fine sampling of a large outer scale (the row covariance is barely
+    # positive definite there) and very strong turbulence (phase values of hundreds of radians)
+    for variant, n, atm, sd in (("vk", 8, (0.008, 0.2, 100.0), 3), ("vk", 6, (0.006, 0.2, 100.0), 2),
+                                ("fried", 16, (0.006, 0.2, 100.0), 4), ("fried", 9, (0.008, 0.2, 100.0), 2),
+                                ("fried", 6, (0.5, 0.05, 100.0), 4), ("fried", 9, (0.5, 0.05, 100.0), 2),
+                                ("vk", 7, (0.5, 0.05, 100.0), 2), ("fried", 5, (1.0, 0.02, 50.0), 4)):
+        for seed in (1, 2, 3):
+            yield Case("hist:%s:n=%d:ps=%g,r0=%g,L0=%g:seed=%d:sd=%d" % ((variant, n) + atm + (seed, sd)),
+                       {"kind": "hist", "variant": variant, "n": n, "atm": list(atm), "seed": seed, "sd": sd,
+                        "depth": b["depth"] + 3}, True)
     for n in b["stability_sizes"]:
         for ai, atm in enumerate(ATMOS):
             for nc in ([2] if tier == "quick" else [1, 2, 3]):
